@@ -802,9 +802,9 @@ func basicOf(t types.Type) (*types.Basic, bool) {
 }
 
 func (m *Machine) typeAssert(instr *ssa.TypeAssert, x value) value {
-	fail := func(msg string) value {
+	fail := func(format string, a ...any) value {
 		if !instr.CommaOk {
-			panic(targetPanic{msg: "interface conversion: " + msg, pos: m.pos(instr.Pos())})
+			panic(targetPanic{msg: "interface conversion: " + fmt.Sprintf(format, a...), pos: m.pos(instr.Pos())})
 		}
 		return tuple{zero(instr.AssertedType), false}
 	}
@@ -817,18 +817,18 @@ func (m *Machine) typeAssert(instr *ssa.TypeAssert, x value) value {
 	switch itf := x.(type) {
 	case iface:
 		if itf.t == nil {
-			return fail(fmt.Sprintf("interface is nil, not %s", instr.AssertedType))
+			return fail("interface is nil, not %s", instr.AssertedType)
 		}
 		if idst, ok := instr.AssertedType.Underlying().(*types.Interface); ok {
 			if meth, _ := types.MissingMethod(itf.t, idst, true); meth != nil {
-				return fail(fmt.Sprintf("%v is not %v: missing method %s", itf.t, idst, meth.Name()))
+				return fail("%v is not %v: missing method %s", itf.t, idst, meth.Name())
 			}
 			return okv(itf)
 		}
 		if types.Identical(itf.t, instr.AssertedType) {
 			return okv(itf.v)
 		}
-		return fail(fmt.Sprintf("interface is %s, not %s", itf.t, instr.AssertedType))
+		return fail("interface is %s, not %s", itf.t, instr.AssertedType)
 	case symIface:
 		s := itf.s
 		if idst, ok := instr.AssertedType.Underlying().(*types.Interface); ok {
@@ -848,7 +848,7 @@ func (m *Machine) typeAssert(instr *ssa.TypeAssert, x value) value {
 		if !ok {
 			// maps, slices, named types: a scalar is never one of those.
 			// (for a nil scalar the assertion fails as well)
-			return fail(fmt.Sprintf("interface is scalar, not %s", instr.AssertedType))
+			return fail("interface is scalar, not %s", instr.AssertedType)
 		}
 		var k int
 		switch b.Kind() {
@@ -863,10 +863,10 @@ func (m *Machine) typeAssert(instr *ssa.TypeAssert, x value) value {
 		case types.String:
 			k = skStr
 		default:
-			return fail(fmt.Sprintf("interface is scalar, not %s", instr.AssertedType))
+			return fail("interface is scalar, not %s", instr.AssertedType)
 		}
 		if !m.decide(m.kindIs(s, k)) {
-			return fail(fmt.Sprintf("interface is scalar of another kind, not %s", instr.AssertedType))
+			return fail("interface is scalar of another kind, not %s", instr.AssertedType)
 		}
 		switch k {
 		case skBool:
